@@ -520,6 +520,48 @@ def macroarg_inputs(ctx, add):
                 n += 2
     ctx.cov["macroarg_inputs"] = n
 
+# ---- multi-dimensional variably modified types (spec/VmTypes.tla) --------------------------------------------
+# TLC enumerates derivation chains (constant array / variable array / pointer, depth <= 3) x code-generating positions x element
+# types and renders one C function per case; the harness only groups the texts into files.  cproc keeps a run-time size
+# expression per array type; which of them exist and which a use reads differs per chain, and a field nobody wrote is read from
+# whatever the allocator returned.  All files also run under memcheck.
+def vmtype_inputs(ctx, add):
+    import subprocess
+    r = ctx.tlc_must_pass("VmTypes", "MC_VmTypes_quick.cfg" if ctx.quick else "MC_VmTypes_thorough.cfg", workers=2, timeout=600)
+    cases = sorted((json.loads(v) for v in r.vcases), key=lambda c: (c["shape"], c["pos"], c["elem"]))
+    if len(cases) != r.distinct or not cases:
+        raise vlib.MachineryError("VmTypes: %d VCASE lines for %d distinct states" % (len(cases), r.distinct))
+    # audit of the spec's rendering by a reference front end: every case is a valid C11 function
+    allsrc = ctx.path("vmt_all.c")
+    with open(allsrc, "w") as f:
+        f.write("\n".join(c["text"] for c in cases) + "\n")
+    a = subprocess.run(["gcc", "-std=c11", "-fsyntax-only", "-w", allsrc], capture_output=True, text=True)
+    if a.returncode != 0:
+        raise vlib.MachineryError("VmTypes.tla renders a function gcc rejects:\n" + a.stderr[:2000])
+    by = {}
+    for c in cases:
+        by.setdefault(c["shape"], []).append(c)
+    n = 0
+    for shape, cs in sorted(by.items()):
+        t = vlib.TARGETS[cs[0]["tgt"]]
+        add("vmt:%s:all" % shape, ("\n".join(c["text"] for c in cs) + "\n").encode(), t, "c")
+        n += 1
+        if not ctx.quick:
+            for pos in sorted({c["pos"] for c in cs}):
+                add("vmt:%s:%s" % (shape, pos), ("\n".join(c["text"] for c in cs if c["pos"] == pos) + "\n").encode(),
+                    vlib.TARGETS[(cs[0]["tgt"] + 1) % 3], "c")
+                n += 1
+        if cs[0]["vm"] or not ctx.quick:
+            # small files: the type nodes live in fresh heap
+            for g in sorted({c["grp"] for c in cs}):
+                add("vmt:%s:g%d" % (shape, g), ("\n".join(c["text"] for c in cs if c["grp"] == g and c["pick"]) + "\n").encode(),
+                    vlib.TARGETS[(cs[0]["tgt"] + g) % 3], "c")
+                n += 1
+    ctx.cov["vmtype_inputs"] = {"cases": len(cases), "chains": len(by), "files": n,
+                                "variably_modified_chains": len({c["shape"] for c in cases if c["vm"]}),
+                                "runtime_size_chains": len({c["shape"] for c in cases if c["dyn"]}),
+                                "const_over_runtime_chains": len({c["shape"] for c in cases if c["cod"]})}
+
 
 def make_inputs(ctx):
     """-> list of dict(name, text(bytes), t, m).  Deterministic for a seed."""
@@ -551,6 +593,7 @@ def make_inputs(ctx):
     growth_inputs(ctx, add)
     strinit_inputs(ctx, add)
     macroarg_inputs(ctx, add)
+    vmtype_inputs(ctx, add)
     pool_inputs(ctx, add, {"C07": 150 if ctx.quick else 400}, 25 if ctx.quick else 80)
     texts = [(n, t.decode("latin-1"), a, m) for n, t, a, m in cor]
     pool = sorted({tok for _, t, _, _ in texts for tok in TOKRE.findall(t) if not tok.isspace() and len(tok) < 40}) + EXTRA_TOKS
@@ -1076,10 +1119,16 @@ def run(ctx):
             if not ctx.quick:
                 # memcheck costs ~1 s of CPU per run: a third of the rows for the plain corpus and the snippets, one (rotating)
                 # row for every third other input
-                if it["name"].startswith("err:") or (it["name"].startswith("corpus:") and it["name"].count(":") == 1):
+                if it["name"].startswith("vmt:"):
+                    rows = rows + [vgrows[k % len(vgrows)]]
+                elif it["name"].startswith("err:") or (it["name"].startswith("corpus:") and it["name"].count(":") == 1):
                     rows = rows + vgrows[k % 3::3]
                 elif k % 3 == 0:
                     rows = rows + [vgrows[(k // 3) % len(vgrows)]]
+            elif it["name"].startswith("vmt:") and it["name"].endswith(":all"):
+                rows = rows + [vgrows[k % len(vgrows)]]
+            elif it["name"].startswith("vmt:"):
+                pass
             elif not it["name"].startswith("own:") and (it["text"].startswith((b"#define f(a) a\n#define t(a) a", b"#define F(y) y\n#define ID(x) x"))
                                                         or k % (3 if it["name"].startswith(("corpus:", "err:")) else 6) == 0):
                 rows = rows + [vgrows[(k // 2) % len(vgrows)]]
